@@ -136,7 +136,7 @@ fn tx_of(witnesses: Vec<Witness>) -> Transaction {
   }
 }
 
-fn control_block() -> Vec<u8> {
+pub fn control_block() -> Vec<u8> {
   let mut v = vec![0xc0u8];
   v.extend_from_slice(&[32u8; 7]);
   v
@@ -158,7 +158,7 @@ fn witness_of(mode: u8, script: &[u8]) -> Witness {
 const SIZES: [usize; 22] =
   [0, 1, 2, 3, 74, 75, 76, 77, 254, 255, 256, 257, 519, 520, 521, 1039, 1040, 1041, 1560, 1561, 10000, 65535];
 
-fn rand_bytes(rng: &mut Rng, n: usize) -> Vec<u8> {
+pub fn rand_bytes(rng: &mut Rng, n: usize) -> Vec<u8> {
   match rng.below(4) {
     0 => vec![0u8; n],
     1 => (0..n).map(|i| i as u8).collect(),
@@ -166,7 +166,7 @@ fn rand_bytes(rng: &mut Rng, n: usize) -> Vec<u8> {
   }
 }
 
-fn rand_value(rng: &mut Rng, big: bool) -> Vec<u8> {
+pub fn rand_value(rng: &mut Rng, big: bool) -> Vec<u8> {
   let n = if big && rng.chance(1, 3) {
     // the two largest sizes only in the per-field boundary cases (model run time)
     *rng.pick(&SIZES[..SIZES.len() - 2])
@@ -180,7 +180,7 @@ fn rand_value(rng: &mut Rng, big: bool) -> Vec<u8> {
   rand_bytes(rng, n)
 }
 
-fn rand_insc(rng: &mut Rng, mask: u32, big: bool) -> Inscription {
+pub fn rand_insc(rng: &mut Rng, mask: u32, big: bool) -> Inscription {
   let mut f = |bit: u32, rng: &mut Rng| if mask & (1 << bit) != 0 { Some(rand_value(rng, big)) } else { None };
   let body = f(0, rng);
   let content_encoding = f(1, rng);
@@ -232,7 +232,7 @@ fn build_case(mode: u8, pre: &[u8], is: &[Inscription]) -> Line {
   l.done()
 }
 
-fn key_prefix(rng: &mut Rng) -> Vec<u8> {
+pub fn key_prefix(rng: &mut Rng) -> Vec<u8> {
   // <32-byte key> OP_CHECKSIG, as the wallet's reveal script starts
   let mut v = vec![32u8];
   v.extend_from_slice(&rng.bytes(32));
@@ -240,7 +240,7 @@ fn key_prefix(rng: &mut Rng) -> Vec<u8> {
   v
 }
 
-fn push_bytes(out: &mut Vec<u8>, d: &[u8], style: u64) {
+pub fn push_bytes(out: &mut Vec<u8>, d: &[u8], style: u64) {
   // style 0: minimal length prefix as push_slice; 1: PUSHDATA1; 2: PUSHDATA2; 3: PUSHDATA4
   let n = d.len();
   match style {
@@ -261,7 +261,7 @@ fn push_bytes(out: &mut Vec<u8>, d: &[u8], style: u64) {
   out.extend_from_slice(d);
 }
 
-fn rand_tag(rng: &mut Rng) -> Vec<u8> {
+pub fn rand_tag(rng: &mut Rng) -> Vec<u8> {
   match rng.below(10) {
     0..=5 => vec![*rng.pick(&TAGS)],
     6 => vec![*rng.pick(&[0u8, 4, 6, 66, 15, 255, 21, 22])],
@@ -272,7 +272,7 @@ fn rand_tag(rng: &mut Rng) -> Vec<u8> {
 }
 
 /// one envelope written by hand (not by the builder), with optional irregularities
-fn hand_envelope(rng: &mut Rng, out: &mut Vec<u8>) {
+pub fn hand_envelope(rng: &mut Rng, out: &mut Vec<u8>) {
   out.push(0x00);
   out.push(0x63);
   let st = if rng.chance(1, 8) { rng.range(1, 3) } else { 0 };
@@ -315,7 +315,7 @@ fn hand_envelope(rng: &mut Rng, out: &mut Vec<u8>) {
   }
 }
 
-fn rand_script(rng: &mut Rng) -> Vec<u8> {
+pub fn rand_script(rng: &mut Rng) -> Vec<u8> {
   let mut out = Vec::new();
   match rng.below(10) {
     0 => {
@@ -396,7 +396,7 @@ fn rand_script(rng: &mut Rng) -> Vec<u8> {
   out
 }
 
-fn rand_witness(rng: &mut Rng) -> Vec<Vec<u8>> {
+pub fn rand_witness(rng: &mut Rng) -> Vec<Vec<u8>> {
   let script = rand_script(rng);
   match rng.below(12) {
     0 => vec![],
